@@ -1,7 +1,6 @@
 // Archetype driver: the whole core API with the minimal scalar type vt::Arch.
 #include "arch.h"
 #include "drv_core.h"
-#include "drv_iter.h"
 #include "drv_lvalue.h"
 // results of the driver grid reach order 7; the region evaluator observes them through their accessors
 template class bspline::Spline<vt::Arch, 4>;
@@ -10,4 +9,3 @@ template class bspline::Spline<vt::Arch, 6>;
 template class bspline::Spline<vt::Arch, 7>;
 template void vt::drive<vt::Arch>();
 template void vt::drive_lvalue<vt::Arch>();
-template void vt::iterator_api<vt::Arch>();
